@@ -254,6 +254,27 @@ func (lg *ledger) callObligations(c *ssa.Call, blk *ssa.BasicBlock, mk func(stri
 		return
 	}
 	pkg, name := staticCalleeName(c)
+	// standard-library functions that panic on an argument out of range
+	if (pkg == "strings" || pkg == "bytes") && name == "Repeat" && len(cc.Args) == 2 {
+		cnt := cc.Args[1]
+		mk(pkg+".Repeat with count "+lg.key(cnt), oblPred{"count >= 0 (and the result does not overflow)", func() (bool, string) {
+			cb, co := lg.term(cnt)
+			if cb == "0" {
+				// a constant count: small and non-negative
+				if co >= 0 && co <= 1<<16 {
+					return true, "constant count"
+				}
+				return false, ""
+			}
+			// a count known to be non-negative here (the length of the result is then a matter of memory, not of a panic
+			// this rule can decide - a count taken from template data without an upper bound stays open)
+			if entails(lg.subFacts(lg.boundFacts(blk)), "0", cb, co) && strings.HasPrefix(cb, "len(") {
+				return true, "a length, non-negative"
+			}
+			return false, ""
+		}})
+		return
+	}
 	if pkg != "reflect" {
 		return
 	}
@@ -744,6 +765,28 @@ func (lg *ledger) comparable(k ssa.Value, blk *ssa.BasicBlock) oblPred {
 				}
 			}
 		}
+		// a key that is one of several values (kept as it is, or converted to the key type): each of them,
+		// with what is known on the way it takes into the join
+		if phi, ok := throughCell(k).(*ssa.Phi); ok {
+			all := len(phi.Edges) > 0
+			for i, e := range phi.Edges {
+				okE := false
+				for _, tk := range lg.valueTypeKeys(e) {
+					for _, tv := range lg.valuesWithKey(tk) {
+						ctx := &proofCtx{visited: map[string]bool{}, done: map[string]string{}, failed: map[string]bool{}, nilPhis: map[*ssa.Phi]bool{}}
+						if ok, _ := lg.proveEdge(pred{kind: pComparable, v: tv}, phi.Block().Preds[i], phi.Block(), ctx); ok {
+							okE = true
+						}
+					}
+				}
+				if !okE {
+					all = false
+				}
+			}
+			if all {
+				return true, "every value the key can be has a comparable type"
+			}
+		}
 		// the value of a validating helper that returns without error only for comparable types
 		if ok, why := lg.viaValidatingHelper(k, blk, 0, func(lgG *ledger, g *ssa.Function, call *ssa.Call, res ssa.Value, at *ssa.BasicBlock) bool {
 			ok, _ := lgG.comparable(res, at).prove()
@@ -985,6 +1028,8 @@ func checkC11(r *Run) {
 	receiverChainRule(r, "R7")
 	r.Rule("R8", "conversions keep the kind: a template-supplied value (a map key) reaches reflect's Convert only under a dominating test that its kind equals the target's kind", 1)
 	convertKindRule(r, "R8")
+	r.Rule("R9", "the member tail of an index path is never dropped: an evaluator function that takes the index node yields a value only where it found the node's callee nil, or from a function it handed the node to", 1)
+	indexTailRule(r, "R9")
 }
 
 var _ = fmt.Sprint
